@@ -180,3 +180,15 @@ Proof.
   intros j o' Hj Hl Ha. apply (Hd j o'); [done| |done].
   apply lookup_lt_Some in Ho. rewrite lookup_app_l in Hl by lia. done.
 Qed.
+
+(** a stronger delivery discipline reaches fewer states *)
+Lemma reach_adm_mono {St Op} (init : St) (apply : St → Op → St) (merge : St → St → St)
+    (adm1 adm2 : adm_t Op) (mergeable : Prop) H s K :
+  (∀ K i, adm1 H K i → adm2 H K i) →
+  reach init apply merge adm1 mergeable H s K → reach init apply merge adm2 mergeable H s K.
+Proof.
+  intros Hadm. induction 1 as [|s K i o Hr IH Ho Ha|s1 K1 s2 K2 Hm Hr1 IH1 Hr2 IH2].
+  - constructor.
+  - eapply reach_apply; [done..|by apply Hadm].
+  - by apply reach_merge.
+Qed.
